@@ -48,7 +48,7 @@ inline PathDomain path_domain(int tier) {
   std::vector<std::string> jb = enum_joined(V, 1, LB), jr = enum_joined(V, 1, LR), js = enum_joined(V, 1, LS);
   // bases
   for (const char *auth : {"", "//h"}) {
-    for (const char *q : {"", "?q"}) {
+    for (const char *q : {"", "?q", "?"}) {
       std::string pre = std::string("s:") + auth;
       add(d.bases, pre + q);
       add(d.bases, pre + "/" + q);
@@ -84,7 +84,7 @@ inline PathDomain path_domain(int tier) {
   for (const char *sch : {"s:", "t:"}) {
     for (const char *auth : {"", "//h", "//g", "//u@h:1"}) {
       if (sch[0] == 't' && auth[0] && auth[2] != 'h') continue;
-      for (const char *q : {"", "?q"}) {
+      for (const char *q : {"", "?q", "?"}) {
         std::string pre = std::string(sch) + auth;
         add(d.abss, pre + q);
         add(d.abss, pre + "/" + q);
